@@ -136,6 +136,7 @@ def run(ctx):
     key = ("kk", 7, 9)
     for w in (("plain", 100000), ("sharded", 4, 400000)):
         for opn in ("set", "put"):
+          for er in ("ENOSPC", "EXDEV"):
             for size in (0, 10, 100):
                 d = G.key_path(w, "w", key).rsplit("/", 1)[0]
                 L = G.header(w, (), "none") + ["mkdir " + d]
@@ -152,7 +153,8 @@ def run(ctx):
                 if not pub:
                     continue
                 try:
-                    impl = S.run_impl(L, fault=(seqs[pub[0]], "ENOSPC"))
+                    # EXDEV is a property of the two paths, not of one attempt: every rename / link answers it
+                    impl = S.run_impl(L, fault=(seqs[pub[0]], er)) if er != "EXDEV" else S.run_impl(L, persistent=(can[pub[0]][0], er))
                 except Exception as ex:
                     ties.append({"what": "faulted size run failed", "detail": repr(ex)}); continue
                 if not impl.steps:
@@ -161,18 +163,22 @@ def run(ctx):
                 evs = stf["events"]
                 ret = stf["returned_at"] if stf["returned_at"] is not None else len(evs)
                 op_evs = evs[stf["staged_at"]:ret]
-                _, _, _, opendirs = S.fd_profile(op_evs)
+                fpeak, fcur, _, opendirs = S.fd_profile(op_evs)
                 ncalls = len([e for e in op_evs if T.significant(e)])
-                fcounts.setdefault((w[0], opn), {})[size] = ncalls
+                fcounts.setdefault((w[0], opn, er), {})[size] = ncalls
                 nontriv += 1
+                if fpeak > 2 or fcur != 0:
+                    violations.append({"what": "%s whose first publication failed once (%s): %d descriptors open at once (limit 2), %d left open" % (opn, er, fpeak, fcur),
+                                       "classification": {"kind": "fd-peak-under-fault", "op": opn, "front": w[0], "errno": er},
+                                       "replay": {"kind": "fault", "scenario": L, "fault_seq": seqs[pub[0]], "errno": er, "peak": fpeak, "trace": [T.fmt(t) for t in T.canon(op_evs)][:60]}})
                 if opendirs:
-                    violations.append({"what": "%s whose first publication failed once (ENOSPC) lists a directory although maintenance is not due" % opn,
+                    violations.append({"what": "%s whose first publication failed once (%s) lists a directory although maintenance is not due" % (opn, er),
                                        "classification": {"kind": "listing-under-fault", "op": opn, "front": w[0]},
-                                       "replay": {"kind": "fault", "scenario": L, "fault_seq": seqs[pub[0]], "errno": "ENOSPC", "trace": [T.fmt(t) for t in T.canon(op_evs)][:60]}})
+                                       "replay": {"kind": "fault", "scenario": L, "fault_seq": seqs[pub[0]], "errno": er, "trace": [T.fmt(t) for t in T.canon(op_evs)][:60]}})
     for k, bysize in fcounts.items():
         if len(set(bysize.values())) > 1:
-            violations.append({"what": "with the first publication failing once (ENOSPC), the call count of %s depends on the directory size: %s" % (k, bysize),
-                               "classification": {"kind": "count-varies-under-fault", "op": k[1], "front": k[0]}, "replay": {"case": list(k), "counts": {str(a): b for a, b in bysize.items()}}})
+            violations.append({"what": "with the first publication failing once, the call count of %s depends on the directory size: %s" % (k, bysize),
+                               "classification": {"kind": "count-varies-under-fault", "op": k[1], "front": k[0], "errno": k[2]}, "replay": {"case": list(k), "counts": {str(a): b for a, b in bysize.items()}}})
     # descriptors under I/O failures: whichever call fails, nothing stays open after the operation
     # returns (only a returned handle), as the all-responses theorems state
     import concurrent.futures as cf
@@ -279,7 +285,7 @@ def run(ctx):
             seenf.add(kf); uniqf.append(v)
     violations = uniqf
     cov = {"evaluations": len(res) + len(fres) + len(sres), "distinct_nontrivial": nontriv, "fault_runs": len(fres), "stale_handle_runs": len(sres),
-           "rule": "get/touch/set/put x {plain, sharded} writer x stack depth 1-3 x key present/absent x directories pre-populated with %s entries, trigger scripted not to fire: call count identical across sizes, no opendir, <=2 opens per directory per lookup, peak/residual descriptors from the trace cross-checked with /proc/self/fd; plus set/put with the first publication failing once (ENOSPC) at sizes 0/10/100: no listing, call count independent of the size; plus ensure/get_or_update/set/put/get with maintenance firing (reprieve + eviction), with and without checker: descriptor peak; plus every call of every fault-free execution of the C18 operation set failing once (first plausible errno): before/held/after descriptor counts from /proc/self/fd (nothing stays open but a returned handle), compared with the model under the same fault; plus lookups through sharded directories with each open answering ESTALE: at most two open attempts per directory. Non-trivial = size >= 100, maintenance fired, or a fault run." % ([0, 10, 100, 600] if ctx.quick() else [0, 10, 100, 2000]),
+           "rule": "get/touch/set/put x {plain, sharded} writer x stack depth 1-3 x key present/absent x directories pre-populated with %s entries, trigger scripted not to fire: call count identical across sizes, no opendir, <=2 opens per directory per lookup, peak/residual descriptors from the trace cross-checked with /proc/self/fd; plus set/put with the first publication failing once (ENOSPC, and EXDEV = value on another filesystem) at sizes 0/10/100: no listing, call count independent of the size, at most two descriptors at once, none left open; plus ensure/get_or_update/set/put/get with maintenance firing (reprieve + eviction), with and without checker: descriptor peak; plus every call of every fault-free execution of the C18 operation set failing once (first plausible errno): before/held/after descriptor counts from /proc/self/fd (nothing stays open but a returned handle), compared with the model under the same fault; plus lookups through sharded directories with each open answering ESTALE: at most two open attempts per directory. Non-trivial = size >= 100, maintenance fired, or a fault run." % ([0, 10, 100, 600] if ctx.quick() else [0, 10, 100, 2000]),
            "samples": samples[:8], "traces_validated_against_impl": len([1 for r in res if not r[4]]) + fagree}
     if not ctx.quick():
         rc, o = C.coqchk(PROPS)
